@@ -449,7 +449,7 @@ func vtRandB(rng *rand.Rand, max int) vtB {
 	if n == 0 {
 		return vtB{}
 	}
-	return vtB{N: n, V: 1 + rng.Intn(1 << 30)}
+	return vtB{N: n, V: 1 + rng.Intn(1<<30)}
 }
 
 func vtRandAmt(rng *rand.Rand) int {
